@@ -412,9 +412,20 @@ the primary and every registered database that still exists are reopened, bindin
 def restart (cfg : Cfg) (s : State) : State :=
   { s with opened := cfg.primary :: (s.registry.filter (fun n => !(n == cfg.primary) && s.stored.contains n)) }
 
-/-- The state after a whole history of requests. -/
-def run (cfg : Cfg) (s : State) : List Request → State
+/-- What can happen to a running service: a request (from anybody, about anything), or a clean
+restart. -/
+inductive Event where
+  | request (r : Request)
+  | restart
+deriving Repr
+
+def stepEvent (cfg : Cfg) (s : State) : Event → State
+  | .request r => (handle cfg s r).1
+  | .restart => restart cfg s
+
+/-- The state after a whole history. -/
+def run (cfg : Cfg) (s : State) : List Event → State
   | [] => s
-  | r :: rs => run cfg (handle cfg s r).1 rs
+  | e :: es => run cfg (stepEvent cfg s e) es
 
 end AndaVerif.ServerAuth
